@@ -137,6 +137,16 @@ Definition rx1_channel_obs_ok (reg : region) (i f : Z) (o_idx o_down o_freq : ou
   | _, _, _ => false
   end.
 
+(* The uplink channel list after a history: the region's default channels followed by one channel
+   per accepted AddChannel call, in call order ([added] = the frequencies of the accepted calls;
+   Disable / Enable change no frequency).  Uplink channel [i] must carry exactly that frequency -
+   also beyond index 255. *)
+Definition uplink_freq_after_adds_ok (reg : region) (added : list Z) (i f : Z) : bool :=
+  match zindex (map (fun c => fst (fst c)) (spec_uplink_channels reg) ++ added) i with
+  | Ok g => g =? f
+  | _ => false
+  end.
+
 (* GetRX1FrequencyForUplinkFrequency on ANY frequency f: regions answering RX1 on the uplink
    frequency return f itself (nothing is snapped to a nearby channel); the other regions answer
    with one of their downlink frequencies or an error (checked against the model) *)
